@@ -1,4 +1,4 @@
-(* Equality.v — Element.__eq__ / _Property.__eq__ with Python semantics:
+(* Equality.v — Element.__eq__ / _Property.__eq__ (after replace_bool: literals compare with js_eq):
    same concrete class and Python-== public attributes; object classes compare
    without their name or bases; dict-valued attributes compare order-insensitively. *)
 From Statham.Model Require Import Str Json Elem.
@@ -103,30 +103,30 @@ Section KwEq.
     end.
 
   Definition kwds_eq (a b : kwds elem) : bool :=
-    opt_eqb py_eq (k_default a) (k_default b) &&
-    opt_eqb py_eq (k_const a) (k_const b) &&
-    opt_eqb (list_eqb py_eq) (k_enum a) (k_enum b) &&
+    opt_eqb js_eq (k_default a) (k_default b) &&
+    opt_eqb js_eq (k_const a) (k_const b) &&
+    opt_eqb (list_eqb js_eq) (k_enum a) (k_enum b) &&
     items_eq (k_items a) (k_items b) &&
     addl_eq (k_additionalItems a) (k_additionalItems b) &&
-    opt_eqb py_eq (k_minItems a) (k_minItems b) &&
-    opt_eqb py_eq (k_maxItems a) (k_maxItems b) &&
+    opt_eqb js_eq (k_minItems a) (k_minItems b) &&
+    opt_eqb js_eq (k_maxItems a) (k_maxItems b) &&
     Bool.eqb (k_uniqueItems a) (k_uniqueItems b) &&
     oelem_eq (k_contains a) (k_contains b) &&
-    opt_eqb py_eq (k_minimum a) (k_minimum b) &&
-    opt_eqb py_eq (k_maximum a) (k_maximum b) &&
-    opt_eqb py_eq (k_exclusiveMinimum a) (k_exclusiveMinimum b) &&
-    opt_eqb py_eq (k_exclusiveMaximum a) (k_exclusiveMaximum b) &&
-    opt_eqb py_eq (k_multipleOf a) (k_multipleOf b) &&
+    opt_eqb js_eq (k_minimum a) (k_minimum b) &&
+    opt_eqb js_eq (k_maximum a) (k_maximum b) &&
+    opt_eqb js_eq (k_exclusiveMinimum a) (k_exclusiveMinimum b) &&
+    opt_eqb js_eq (k_exclusiveMaximum a) (k_exclusiveMaximum b) &&
+    opt_eqb js_eq (k_multipleOf a) (k_multipleOf b) &&
     opt_eqb str_eqb (k_format a) (k_format b) &&
     opt_eqb str_eqb (k_pattern a) (k_pattern b) &&
-    opt_eqb py_eq (k_minLength a) (k_minLength b) &&
-    opt_eqb py_eq (k_maxLength a) (k_maxLength b) &&
+    opt_eqb js_eq (k_minLength a) (k_minLength b) &&
+    opt_eqb js_eq (k_maxLength a) (k_maxLength b) &&
     opt_eqb (list_eqb str_eqb) (k_required a) (k_required b) &&
     props_eq (k_properties a) (k_properties b) &&
     pats_eq (k_patternProperties a) (k_patternProperties b) &&
     addl_eq (k_additionalProperties a) (k_additionalProperties b) &&
-    opt_eqb py_eq (k_minProperties a) (k_minProperties b) &&
-    opt_eqb py_eq (k_maxProperties a) (k_maxProperties b) &&
+    opt_eqb js_eq (k_minProperties a) (k_minProperties b) &&
+    opt_eqb js_eq (k_maxProperties a) (k_maxProperties b) &&
     oelem_eq (k_propertyNames a) (k_propertyNames b) &&
     deps_eq (k_dependencies a) (k_dependencies b) &&
     opt_eqb str_eqb (k_description a) (k_description b).
@@ -136,9 +136,9 @@ Fixpoint elem_eq (a b : elem) {struct a} : bool :=
   match a, b with
   | EK c1 k1, EK c2 k2 => ecls_eqb c1 c2 && kwds_eq elem_eq k1 k2
   | ENothing, ENothing => true
-  | ENot e1 d1, ENot e2 d2 => elem_eq e1 e2 && opt_eqb py_eq d1 d2
+  | ENot e1 d1, ENot e2 d2 => elem_eq e1 e2 && opt_eqb js_eq d1 d2
   | EComp m1 es1 d1, EComp m2 es2 d2 =>
-    mode_eqb m1 m2 && elems_eq elem_eq es1 es2 && opt_eqb py_eq d1 d2
+    mode_eqb m1 m2 && elems_eq elem_eq es1 es2 && opt_eqb js_eq d1 d2
   | EObj _ _ k1, EObj _ _ k2 => kwds_eq elem_eq k1 k2
   | _, _ => false
   end.
